@@ -3,25 +3,25 @@ C19 — export/import of x/concentrated-liquidity over the LAYERED state of a po
 accumulator (`Model/CLFees.lean`) + uptime accumulators, tick trackers, incentive records, join times (`Model/CLInc.lean`) + the
 full-range liquidity record.  `Props/C19.cl_export_import_eq` covers the pool component alone.
 
-Proved.
- * `cl_full_export_import_never_panics`: on EVERY reachable state (C08's `runI` histories) `ExportGenesis` → `InitGenesis` succeeds.
- * `cl_full_export_import_eq_partial`: on every state with the store shape `FullWF` (what a KV store gives for free: ascending keys, the
-   three per-tick lists aligned with the tick list, one spread-reward record per live position, live uptime records / join times in
-   position order, incentive records in key order — a DECIDABLE predicate) `ExportGenesis` does not panic, `InitGenesis` succeeds, and the
-   result is `canon s`: the state itself with the uptime-accumulator records and join times of positions that NO LONGER EXIST removed.
-   `cl_full_export_import_identity`: the identity when there is nothing to remove.
-   PARTIAL: that every reachable state (`CLIncP.runI` histories) satisfies `FullWF` is NOT proved (the order / alignment clauses are new
-   invariants; `Props/C08IncHist.reachable_inv_inc` has the existence clauses only).  It is checked by `decide` on the history below and
-   enforced differentially: the `cl` engine's op `exportimport` now runs THIS model against the real ExportGenesis → InitGenesis and
-   compares every later accumulator / tracker / record / claimable dump.  Also not proved: that `canon` is unobservable (no operation
-   looks a record of a dead position up: ids are never reused).
- * NEW difference (raw store only): the six zero-share uptime records of a fully withdrawn position stay in the running chain's store
-   forever and are not exported (`cl_import_drops_dead_uptime_records_witness`).
+Proved — all for EVERY reachable state (any history of create / withdraw / add / transfer / swap / collect / create-incentive / advance /
+sync / collect-incentives messages on a fresh pool, C08's `runI`):
+ * `cl_reachable_wf` (NEW invariant): the store shape `FullWF` — growth-outside entries and uptime trackers exactly on the initialised ticks
+   in tick order, exactly one spread-reward record per live position in id order, the uptime records and join times of the live positions
+   in id order, incentive records in key order.
+ * `cl_full_export_import_eq`: `ExportGenesis` does not panic, `InitGenesis` accepts the document, and the imported state is `canon s`: the
+   exported state with the uptime-accumulator records and join times of positions that NO LONGER EXIST removed; everything else is equal
+   (`cl_canon_keeps`).  NEW difference, raw store only: the six zero-share uptime records of a fully withdrawn position stay in the running
+   chain's store forever and are not exported (`cl_import_drops_dead_uptime_records_witness`).
+ * `cl_prune_unobservable`, `cl_prune_results`, `cl_run_after_import`: that difference is UNOBSERVABLE — every message has the same
+   success / failure and the same returned amounts on the pruned state, every claimable query answers the same, and after the import every
+   later history goes through exactly the pruned states of the exporting chain.
  * F41: the full-range liquidity record follows `SetPosition` on the running chain (it only grows) and is the true sum after an import
-   (`cl_full_range_import_recomputes`, `cl_full_range_record_recomputed_witness`: 2·L₁ + L₂ before, L₁ + L₂ after); no message of the
-   model reads it, and the difference stays constant along every later history (`cl_full_range_sim_step`, `cl_run_after_import_partial`).
+   (`cl_full_range_import_recomputes`, `cl_full_range_record_recomputed_witness`: 2·L₁ + L₂ before, L₁ + L₂ after); no message of the model
+   reads it, and the difference stays CONSTANT along every later history (`cl_run_after_import`).
+ * `accum_export_import_on_reachable`: the osmoutils/accum store theorem of `Props/C19` on every reachable (disciplined) store.
+The `cl` engine's op `exportimport` runs this model against the real ExportGenesis → InitGenesis and compares every later dump.
 -/
-import OsmoVerif.Proofs.CLFullGenesisWF
+import OsmoVerif.Proofs.CLFullGenesisRun
 import OsmoVerif.Props.C08IncHist
 import OsmoVerif.Proofs.AccumGenesisReach
 import OsmoVerif.Props.C19
@@ -165,30 +165,61 @@ theorem cl_full_range_sim_step {g t : FullG} (h : t.full = g.full) (op : GOp) :
     cases collectIncentives f' sd id <;> simp only [Option.map_none, Option.map_some, Option.isSome_some, Option.isSome_none] <;>
       and_intros <;> first | rfl | trivial
 
-/-- **every later history** (PARTIAL: for `FullWF` states without dead records, where the import is the identity on `Full`): the imported
-chain goes through the same `Full` states with the same outcomes; its full-range record differs from the exporting chain's by the constant
-`Σ full-range liquidity − running record at export time` -/
-theorem cl_run_after_import_partial {g g' : FullG} (h : FullWF g.full) (hd : NoDead g.full) (he : exportImportG g = some g')
-    (ops : List GOp) :
-    (runG g' ops).full = (runG g ops).full ∧
-    (runG g' ops).fullRange - (runG g ops).fullRange = sumFullRange (sortPosById g.full.fees.pool.positions) - g.fullRange := by
-  have hf : g'.full = g.full := by
-    unfold exportImportG at he
-    rw [cl_full_export_import_identity h hd] at he
-    injection he with he; rw [← he]
-  have hr := cl_full_range_import_recomputes he
-  have key : ∀ (ops : List GOp) (a b : FullG), b.full = a.full →
-      (runG b ops).full = (runG a ops).full ∧ (runG b ops).fullRange - (runG a ops).fullRange = b.fullRange - a.fullRange := by
-    intro ops
-    induction ops with
-    | nil => intro a b hab; exact ⟨hab, rfl⟩
-    | cons o os ih =>
-      intro a b hab
-      obtain ⟨h1, _, h3⟩ := cl_full_range_sim_step hab o
-      obtain ⟨i1, i2⟩ := ih (stepG a o) (stepG b o) h1
-      exact ⟨i1, by show (runG (stepG b o) os).fullRange - (runG (stepG a o) os).fullRange = _; rw [i2, h3]⟩
-  obtain ⟨k1, k2⟩ := key ops g g' hf
-  exact ⟨k1, by rw [k2, hr]⟩
+/-- **removing the records of dead positions is unobservable, message by message**: on every state satisfying the C07/C08 invariant, for
+every predicate `p` that keeps the live position ids and all ids not yet handed out, every message succeeds / fails identically on the
+pruned state and yields the pruned result -/
+theorem cl_prune_unobservable {p : Nat → Bool} {s : Full} (hi : CLIncP.IncInv s) (hk : CLIncP.Keeps p s) (op : CLIncP.IOp) :
+    CLIncP.stepI (CLIncP.prune p s) op = CLIncP.prune p (CLIncP.stepI s op) ∧
+    (CLIncP.applyI (CLIncP.prune p s) op).isSome = (CLIncP.applyI s op).isSome ∧
+    CLIncP.Keeps p (CLIncP.stepI s op) :=
+  ⟨(CLIncP.prune_step hi hk op).1, (CLIncP.prune_step hi hk op).2, CLIncP.keeps_step hi hk op⟩
+
+/-- … with the same returned amounts (position id, token amounts, liquidity, swap in / out / fee, collected spread rewards, collected and
+forfeited incentives) and the same answers to the claimable queries -/
+theorem cl_prune_results {p : Nat → Bool} {s : Full} (hi : CLIncP.IncInv s) (hk : CLIncP.Keeps p s) :
+    (∀ o l u a0 a1, (CLInc.createPosition (CLIncP.prune p s) o l u a0 a1).map (·.2) = (CLInc.createPosition s o l u a0 a1).map (·.2)) ∧
+    (∀ o id liq, (CLInc.withdrawPosition (CLIncP.prune p s) o id liq).map (·.2) = (CLInc.withdrawPosition s o id liq).map (·.2)) ∧
+    (∀ o id a0 a1, (CLInc.addToPosition (CLIncP.prune p s) o id a0 a1).map (·.2) = (CLInc.addToPosition s o id a0 a1).map (·.2)) ∧
+    (∀ og zfo spec, (CLInc.swap (CLIncP.prune p s) og zfo spec).map (·.2) = (CLInc.swap s og zfo spec).map (·.2)) ∧
+    (∀ sd id, (collectSpread (CLIncP.prune p s) sd id).map (·.2) = (collectSpread s sd id).map (·.2)) ∧
+    (∀ sd id, (collectIncentives (CLIncP.prune p s) sd id).map (·.2) = (collectIncentives s sd id).map (·.2)) ∧
+    (∀ id, claimableIncentives (CLIncP.prune p s) id = claimableIncentives s id) ∧
+    (∀ id, CLFees.claimable (CLIncP.prune p s).fees id = CLFees.claimable s.fees id) := by
+  have hn : p s.fees.pool.nextId = true := hk.fresh _ (Nat.le_refl _)
+  refine ⟨fun o l u a0 a1 => ?_, fun o id liq => ?_, fun o id a0 a1 => ?_, fun og zfo spec => ?_, fun sd id => ?_, fun sd id => ?_,
+    fun id => CLIncP.claimableIncentives_prune p s id hk.live, fun _ => rfl⟩
+  · unfold CLInc.createPosition
+    rw [CLIncP.createMin_prune p s o l u a0 a1 0 0 hi.fees.pool.core hn, Option.map_map]; rfl
+  · rw [CLIncP.withdraw_prune p s o id liq hk.live, Option.map_map]; rfl
+  · rw [CLIncP.add_prune p s o id a0 a1 hi hk.live hn, Option.map_map]; rfl
+  · rw [CLIncP.swap_prune, Option.map_map]; rfl
+  · unfold collectSpread
+    rw [CLIncP.prune_fees, Option.map_map, Option.map_map]; rfl
+  · rw [CLIncP.icollect_prune p s sd id hk.live, Option.map_map]; rfl
+
+/-- **Every later history, on EVERY reachable state**: after export → import (of the layered state with ANY value `r` of the full-range
+record), every later sequence of messages succeeds / fails identically, the imported chain goes through exactly the PRUNED states of the
+exporting chain (`prune (keepOf s)`: records / join times of positions that were dead at export time removed — unobservable by
+`cl_prune_results`), and its full-range record differs from the exporting chain's by the constant `Σ full-range liquidity − r`. -/
+theorem cl_run_after_import {spacing spf scale factor : Int} {auth : Nat} (hs : 0 < spacing) (hspf : CLBook.SpfOK spf) (hfac : 0 < factor)
+    (ops : List CLIncP.IOp) (r : Int) (later : List GOp) :
+    let s := CLIncP.runI (C08IncHist.initI spacing spf scale factor auth) ops
+    ∃ g', exportImportG { full := s, fullRange := r } = some g' ∧
+      (runG g' later).full = CLIncP.prune (CLIncP.keepOf s) (runG { full := s, fullRange := r } later).full ∧
+      CLIncP.outcomesG g' later = CLIncP.outcomesG { full := s, fullRange := r } later ∧
+      (runG g' later).fullRange - (runG { full := s, fullRange := r } later).fullRange =
+        sumFullRange (sortPosById s.fees.pool.positions) - r := by
+  intro s
+  have hi : CLIncP.IncInv s := C08IncHist.reachable_inv_inc hs hspf hfac ops
+  have he : exportImportFull s = some (canon s) := cl_full_export_import_eq hs hspf hfac ops
+  refine ⟨{ full := CLIncP.prune (CLIncP.keepOf s) s, fullRange := sumFullRange (sortPosById s.fees.pool.positions) }, ?_, ?_⟩
+  · show (exportImportFull s).map _ = _
+    rw [he, CLIncP.canon_eq_prune_keepOf hi]
+    rfl
+  · obtain ⟨h1, h2, h3⟩ := CLIncP.runG_prune (CLIncP.keepOf s) later (g := { full := s, fullRange := r })
+      (sumFullRange (sortPosById s.fees.pool.positions)) hi (CLIncP.keeps_keepOf s)
+    have e : ({ full := s, fullRange := r } : FullG).fullRange = r := rfl
+    exact ⟨h1, h3, by rw [h2, e]; omega⟩
 
 /-! ## a concrete pool -/
 
